@@ -15,6 +15,7 @@ import sys
 
 sys.path.insert(0, os.path.dirname(os.path.abspath(__file__)))
 from universe import RTYPES, SIGS, tla_str  # noqa: E402
+from universe_types import xtla, xwat  # noqa: E402
 
 ROOT = os.path.dirname(os.path.dirname(os.path.abspath(__file__)))
 
@@ -29,6 +30,14 @@ fA, fB = ("func", "A"), ("func", "B")
 
 def inst(ex, us=None):
     return ("inst", dict(ex), dict(us or {}))
+
+
+def comp(im, ex):
+    return ("comp", dict(im), dict(ex))
+
+
+def mod(im, ex):
+    return ("mod", dict(im), dict(ex))
 
 
 def name_str(n):
@@ -117,9 +126,30 @@ def contributors():
     types_res1 = inst({"res": ("rtype", "RES"), "s": fA})
     c.append({"imports": [(T1, types_res1), (I1, inst({"res": ("rtype", "RES"), "take": ("func", "H")}, {"res": (T1, "res", types_res1)}))],
               "agg": [1]})                                     # 44 the same through a higher version of the owner
+    # component- and core-module-kinded requirements under plain names (API level only: such imports
+    # cannot be encoded, KF18)
+    C, M = ("c", None), ("m", None)
+    y, yw = {"y": fA}, {"y": fA, "w": fB}
+    one(C, comp({"x": fA}, y))                                 # 45
+    one(C, comp({"z": fA}, y))                                 # 46 other imports
+    one(C, comp({"x": fA}, yw))                                # 47 more exports
+    one(C, comp({"x": fA}, {"n": inst(y)}))                    # 48 nested instance export ...
+    one(C, comp({"x": fA}, {"n": inst(yw)}))                   # 49 ... with more exports
+    one(C, comp({"x": fB}, y))                                 # 50 the import under another signature
+    one(C, comp({"i": inst({"f": fA})}, y))                    # 51 an instance import ...
+    one(C, comp({"i": inst({"f": fA, "g": fB})}, y))           # 52 ... of which more is expected
+    one(C, comp({"x": fA}, {"y": fB}))                         # 53 conflicting export
+    f0, mem1, mem2 = ("cfunc", [], []), ("mem", 1, -1, False, False), ("mem", 2, -1, False, False)
+    one(M, mod({"a::f": f0}, {"mem": mem1}))                   # 54
+    one(M, mod({"a::g": f0}, {"mem": mem1}))                   # 55 other imports
+    one(M, mod({"a::f": f0}, {"mem": mem2}))                   # 56 a larger memory
+    one(M, mod({"a::f": f0}, {"mem": mem1, "h": f0}))          # 57 more exports
+    one(M, mod({"a::f": ("cfunc", ["i32"], [])}, {"mem": mem1}))   # 58 the import under another signature
+    for x in c[44:]:
+        x["api_only"] = True
     for i, x in enumerate(c):
         x["id"] = i + 1
-        x["e2e"] = x["agg"] == list(range(len(x["imports"])))
+        x["e2e"] = x["agg"] == list(range(len(x["imports"]))) and not x.get("api_only")
     return c
 
 
@@ -145,6 +175,10 @@ def tla_kind(k):
     if k[0] == "inst":
         us = tla_fun(k[2], lambda u: f'[iface |-> {tla_name(u[0])}, name |-> {tla_str(u[1])}, kind |-> {tla_kind(u[2])}]')
         return f'[c |-> "inst", ex |-> {tla_fun(k[1], tla_kind)}, us |-> {us}]'
+    if k[0] == "comp":
+        return f'[c |-> "comp", im |-> {tla_fun(k[1], tla_kind)}, ex |-> {tla_fun(k[2], tla_kind)}]'
+    if k[0] == "mod":
+        return f'[c |-> "mod", im |-> {tla_fun(k[1], xtla)}, ex |-> {tla_fun(k[2], xtla)}]'
     raise ValueError(k)
 
 
@@ -209,6 +243,17 @@ class Comp:
         s = name_str(name)
         if k[0] == "func":
             self.lines.append(f'(import "{s}" {AGG_SIGS[k[1]]["wat"]})')
+            return
+        if k[0] == "comp":
+            def decls(d, word):
+                return " ".join(f'({word} "{n}" ' + (AGG_SIGS[v[1]]["wat"] if v[0] == "func" else f"(instance {self.inst_type(v, 2)})") + ")"
+                                for n, v in d.items())
+            self.lines.append(f'(import "{s}" (component {decls(k[1], "import")} {decls(k[2], "export")}))')
+            return
+        if k[0] == "mod":
+            ims = " ".join('(import "{}" "{}" {})'.format(*n.split("::"), xwat(v)) for n, v in k[1].items())
+            exs = " ".join(f'(export "{n}" {xwat(v)})' for n, v in k[2].items())
+            self.lines.append(f'(import "{s}" (core module {ims} {exs}))')
             return
         h = self.fresh("i")
         self.lines.append(f'(import "{s}" (instance {h} {self.inst_type(k, 1)}))')
